@@ -720,7 +720,24 @@ def _mode_ack(dw):
 W_DERIVED_PLACES = ("self.naks", "self.prompt", "self.timer.nak", "self.delayed_nack_timers", "idx", "prompt")
 
 
-def _w_derived(dw):
+_DELAYED_VARS = {}
+
+
+def _counts_delayed_timers(fn, var):
+    """`var` is computed from self.delayed_nack_timers (the number of expired delayed-NAK
+    timers): every definition's origin mentions that field."""
+    if fn is None:
+        return False
+    key = (fn.norm, var)
+    if key not in _DELAYED_VARS:
+        from common import backslice
+
+        calls, places, nodes = backslice(fn.prog, fn, ("place", var, "usize"))
+        _DELAYED_VARS[key] = any(p == "self.delayed_nack_timers" or p.startswith("self.delayed_nack_timers") for p in places)
+    return _DELAYED_VARS[key]
+
+
+def _w_derived(dw, fn=None):
     """The world holds a fact that can only be true if an (inductively guarded)
     enabling write ran earlier: NAK list non-empty, prompt present, NAK timer expired,
     delayed-NAK timers present."""
@@ -735,8 +752,10 @@ def _w_derived(dw):
             return "NAK list non-empty"
         if k[0] == "call" and k[1].endswith("Counter::timeout_occurred") and any("self.timer.nak" in a for a in k[2]) and pos and s == frozenset([1]):
             return "NAK timer expired"
-        if k[0] == "expr" and k[1] == "Gt(idx, const(0))" and pos and s == frozenset([1]):
-            return "expired delayed-NAK timers counted"
+        if k[0] == "expr" and k[1].startswith("Gt(") and k[1].endswith(", const(0))") and pos and s == frozenset([1]):
+            m = re.match(r"^Gt\((\w+), const\(0\)\)$", k[1])
+            if any(str(p_).startswith("self.delayed_nack_timers") for p_ in (k[2] if len(k) > 2 else ())) or (m and _counts_delayed_timers(fn, m.group(1))):
+                return "expired delayed-NAK timers counted"
     return None
 
 
@@ -746,16 +765,16 @@ def _track_u1(key):
     if key[0] == "call":
         return key[1].endswith("VecDeque::is_empty") or key[1].endswith("Counter::timeout_occurred")
     if key[0] == "expr":
-        return key[1] == "Gt(idx, const(0))"
+        return key[1].startswith("Gt(") and key[1].endswith(", const(0))") and (re.match(r"^Gt\(\w+, const\(0\)\)$", key[1]) is not None or any(str(p_).startswith("self.delayed_nack_timers") for p_ in (key[2] if len(key) > 2 else ())))
     if key[0] == "dexpr":
         return key[1] == "Option::take(&mut self.prompt)"
     return False
 
 
-def _carry_enabled(dw):
+def _carry_enabled(dw, fn=None):
     """At a call boundary: remember that the caller was already under an
     enabled-state guard (local facts do not survive the projection to the callee)."""
-    if _w_derived(dw):
+    if _w_derived(dw, fn):
         return [(("val", "<enabled>"), (True, frozenset([1])))]
     return []
 
@@ -797,7 +816,7 @@ def _recv_enabling_sites(ctx, fns):
 @rule("C18", "C18-U1", 8, "in unacknowledged mode nothing that makes an ACK, NAK or keep-alive sendable is written (guarded by the mode or, inductively, by already-enabled state)")
 def c18_u1(ctx):
     fns = impl_fns(ctx, RECV)
-    it = inter(ctx, RECV, lambda k: _track_u1(k) or k == ("val", "<enabled>"), "u1", carry=_carry_enabled)
+    it = inter(ctx, RECV, lambda k: _track_u1(k) or k == ("val", "<enabled>"), "u1", carry=_carry_enabled, user_stop=True)
     counts = {}
     for f, b, j, line, what in _recv_enabling_sites(ctx, fns):
         fl = it.flows.get(f.norm)
@@ -816,7 +835,7 @@ def c18_u1(ctx):
             if _mode_ack(dw):
                 reasons.append("mode==Acknowledged")
             else:
-                r = _w_derived(dw)
+                r = _w_derived(dw, f)
                 if r:
                     reasons.append(r)
                 else:
